@@ -1,5 +1,7 @@
 import Setec.Proofs.DB
+import Setec.Proofs.Fs
 import Setec.Spec.DBMon
+import Setec.Generated.Facts
 /-!
 # C04 - the database update is all-or-nothing under crashes and I/O failures
 
@@ -55,5 +57,66 @@ theorem gen_only_on_save (kv : KV) (hinv : Inv kv) (n : String) (v : Bytes) (ok 
 a failing save really goes through mutate-and-rollback -/
 example : dedupe true { versions := ((∅ : VMap).insert 1 [1]).insert 2 [2], active := 1, latest := 2 } [3] = false := by
   simp [dedupe]
+
+/-! ## B. the file-system protocol of a save (atomicfile.WriteFile) -/
+
+open Setec.Fs in
+/-- Kill at any instant: after any prefix of the calls of a save - for every split of the
+data into partial writes - the live file holds the complete old contents, and it holds the
+complete new contents (with the requested mode) exactly when the whole sequence, rename
+included, has run.  Never a mixture or a truncation. -/
+theorem crash_all_or_nothing (s : St) (chunks : List Bytes) (perm : Nat) (k : Nat) :
+    (k < (atomicWrite chunks perm).length →
+        (execs s ((atomicWrite chunks perm).take k)).target = s.target) ∧
+    (k ≥ (atomicWrite chunks perm).length →
+        (execs s ((atomicWrite chunks perm).take k)).target = some (chunks.flatten, perm)) := by
+  constructor
+  · intro hk
+    exact execs_target s _ (take_no_rename chunks perm k hk)
+  · intro hk
+    rw [List.take_of_length_le hk, atomicWrite_result]
+
+open Setec.Fs in
+/-- The live file is never written in place: no call of the sequence other than the final
+rename changes it. -/
+theorem never_in_place (s : St) (c : Fs.Call) (h : c ≠ .rename) : (Fs.exec s c).target = s.target :=
+  exec_target s c h
+
+open Setec.Fs in
+/-- New contents are complete and flushed to stable storage, with their final mode, before
+they replace the live file. -/
+theorem flushed_then_renamed (s : St) (chunks : List Bytes) (perm : Nat) :
+    atomicWrite chunks perm =
+      ([Fs.Call.openTmp 0o600] ++ chunks.map Fs.Call.write ++ [Fs.Call.chmod perm, Call.fsync, Call.close]) ++ [Fs.Call.rename] ∧
+    execs s ([Fs.Call.openTmp 0o600] ++ chunks.map Fs.Call.write ++ [Fs.Call.chmod perm, Call.fsync, Call.close]) =
+      { target := s.target, tmp := some { content := chunks.flatten, mode := perm, synced := true } } :=
+  ⟨atomicWrite_split chunks perm, flushed_before_rename s chunks perm⟩
+
+open Setec.Fs in
+/-- An error from any file-system step: the calls before it, then the code's cleanup.  The
+live file is exactly the old one and no temporary file is left. -/
+theorem fault_leaves_old (s : St) (hs : s.tmp = none) (chunks : List Bytes) (perm : Nat) (i : Nat)
+    (hi : i < (atomicWrite chunks perm).length) :
+    execs s (failAt chunks perm i) = s := by
+  unfold failAt
+  rw [execs_append]
+  have ht := execs_target s _ (take_no_rename chunks perm i hi)
+  by_cases h0 : i = 0
+  · subst h0; simp [execs]
+  · simp only [h0, if_false, execs, List.foldl_cons, List.foldl_nil, Fs.exec]
+    simp only [execs] at ht
+    cases s
+    simp only at hs ht ⊢
+    subst hs
+    generalize List.foldl Fs.exec _ _ = r at ht ⊢
+    cases r; simp_all
+
+/-- T1: the save goes through atomicfile.WriteFile with mode 0600. -/
+theorem save_uses_atomic_write : Facts.dbPerm = some 0o600 := by decide
+
+open Setec.Fs in
+/-- non-vacuity: a two-chunk (partial) write killed after the first chunk leaves the old file -/
+example : (execs { target := some ([1], 0o600), tmp := none } ((atomicWrite [[7], [8]] 0o600).take 2)).target = some ([1], 0o600) := by
+  decide
 
 end Setec.C04
